@@ -66,6 +66,10 @@ EXPLANATION += (
     'filled in lock-step.'
 )
 
+EXPLANATION += (
+    ' Round 5: settings (bootstrap_iteration, bootstrap_factor, rng, n_assignments ...) are forwarded at every call (R-FWD/parameter-forwarded); node identity rule of C10 applied to the election module.'
+)
+
 RULE_TEXT = (
     "one obligation per draw, per block, per indexed comprehension, per "
     "provenance relation, per kernel function x configuration (type and "
@@ -104,6 +108,10 @@ def check(ctx):
     for fi_ in ctx.db.iter_functions():
         if fi_.module.short == 'type_assignment.election':
             check_zip_alignment(ctx, fi_)
+    # settings this property depends on are handed down every call
+    # chain, never left to a callee's default (sa/rules/forwarding.py)
+    from ..rules.forwarding import check_forwarding
+    check_forwarding(ctx, {'bootstrap_iteration', 'bootstrap_factor', 'bootstrap_factor_lookup', 'n_assignments'})
 
 
 def _draw_ok(fi, expr, nid, depth=0):
